@@ -38,7 +38,15 @@ func (v *View) OwnerEarnedOf(o []byte) *big.Int {
 	return new(big.Int)
 }
 
+// OwnerOf: the owner of a provider is the one its bindings name ("every provider has one owner for life, shared by all
+// its bindings"); the module's provider->owner index is consulted only for a provider without any binding record.
+// (That the index agrees with the bindings is C15's clause; authority, earnings and payouts are judged by the truth.)
 func (v *View) OwnerOf(p []byte) []byte {
+	for _, br := range v.Bindings {
+		if bytes.Equal(br.B.Provider, p) && len(br.B.Owner) > 0 {
+			return br.B.Owner
+		}
+	}
 	if raw, ok := rawLookup(v.Owner, st.GetOwnerKey(p)); ok {
 		return bytesVal(raw)
 	}
